@@ -960,7 +960,7 @@ def single_traits():
         for an in "01":
             for mode in "012":
                 out.append("(Instance %s %s %s N)" % (c, an, mode))
-    for c in ("int", "str", "tuple"):
+    for c in ("int", "str", "tuple", "object", "NoneType"):
         for an in "01":
             out.append("(Instance %s %s 0 N)" % (c, an))
     out += ["(Base (Instance (u 2) 1 0 N))", "(Base (Instance (u 2) 0 1 N))"]
@@ -973,7 +973,8 @@ def single_traits():
     out += ["(CoerceH %s)" % t for t in ("str", "int", "float", "complex", "list", "tuple", "dict", "function",
                                           "method", "type", "NoneType", "bool", "bytes")]
     out += ["(CastH %s)" % t for t in ("int", "float", "complex", "str", "bytes", "bool", "tuple", "list")]
-    out += ["(InstanceH (u 2) 1)", "(InstanceH (u 2) 0)", "(InstanceH int 1)", "(InstanceH int 0)"]
+    out += ["(InstanceH (u 2) 1)", "(InstanceH (u 2) 0)", "(InstanceH int 1)", "(InstanceH int 0)",
+            "(InstanceH object 0)", "(InstanceH object 1)"]
     out += ["(FunctionH %d)" % i for i in range(4)]
     out += ["(EnumH %s)" % e for e in ENUMS[:4]]
     out += ["(MapH %s)" % m for m in MAPS[:2]]
@@ -981,7 +982,8 @@ def single_traits():
     out += ["(Either 1 Int Str)", "(Either 0 Float Int)", "(Either 0 CInt Float)", "(Either 0 (Callable 0) Int)",
             "(Either 1 (RangeF 0 8 1 0) (Tuple Int Int))", "(Either 0 Int (RangeI 0 2 0 0) Str)",
             "(Either 0 (Enum (i 1) (i 2)) (Instance (u 2) 0 0 N))", "(CompoundH (CoerceH float) (EnumH (s a)))",
-            "(CompoundH (FunctionH 1) (CastH str))", "(Either 0 (String 1 3 N) (PrefixList yes no))"]
+            "(CompoundH (FunctionH 1) (CastH str))", "(Either 0 (String 1 3 N) (PrefixList yes no))",
+            "(Either 0 Int Any)", "(Either 0 Any Int)"]
     return out
 
 
@@ -992,7 +994,8 @@ LEAVES = ["Int", "Float", "Complex", "Str", "Bytes", "Bool", "CInt", "CFloat", "
           "(Instance (u 2) 0 1 N)", "(Instance (u 2) 1 2 N)", "(Instance int 0 0 N)", "(Instance (u 0) 0 0 N)",
           "(This 0)", "(This 1)", "(Callable 1)", "(Callable 0)", "Module", "(Type (u 2) 0)", "(Type object 1)",
           "(String 1 3 N)", "(String 0 N 0)", "(PrefixList yes no yellow)", "(Base Int)", "(Base Float)",
-          "(Base Str)", "(Base (Enum (i 1) (i 2)))", "TupleAny", "(Base (Callable 1))"]
+          "(Base Str)", "(Base (Enum (i 1) (i 2)))", "TupleAny", "(Base (Callable 1))", "Any",
+          "(Instance object 0 0 N)"]
 LEGACY = ["(CoerceH float)", "(CoerceH int)", "(CoerceH str)", "(CoerceH complex)", "(CastH int)", "(CastH str)",
           "(CastH float)", "(InstanceH (u 2) 1)", "(InstanceH (u 2) 0)", "(FunctionH 1)", "(FunctionH 2)",
           "(FunctionH 3)", "(EnumH (i 1) (s a))", "(MapH ((s yes) (i 1)))"]
